@@ -296,6 +296,8 @@ def gen_e2e_case(seed):
         ops = []
         for _ in range(rnd.randint(1, 3)):
             ops.append([rnd.choice(["up", "down"]), rnd.choice([B // 2, B, 3 * B + 1, 10 * B, 25 * B])])
+        if rnd.random() < 0.25:
+            ops.append(["list", 0])  # a directory listing: the client reads the data connection line by line
         sess = {"user": rnd.choice(["ua", "ua", "ub"]), "start": rnd.choice([0.0, 0.0, 0.5, 3.0, 11.0, 30.0]), "ops": ops, "client_limits": [rnd.choice([None, None, 100]), rnd.choice([None, None, 100])]}
         if rnd.random() < 0.3:
             # the session logs in again as the other user, with its passive listener already open
@@ -311,7 +313,7 @@ def run_e2e_case(case):
     B = case["B"]
     sspec = {"block_size": B, "wait_future_timeout": 50.0, "users": case["users"]}
     sspec.update({k: v for k, v in case["server"].items()})
-    sc = {"seed": case["seed"], "server": sspec, "net": net, "fs": {"delay": None, "tree": {"/src.bin": 25 * B}}}
+    sc = {"seed": case["seed"], "server": sspec, "net": net, "fs": {"delay": None, "tree": {"/src.bin": 25 * B, "/many": None, **{f"/many/entry{j:02d}": 1 for j in range(12)}}}}
     viol = []
     info = {}
     world = scenario.setup_world(sc, max_steps=3_000_000)
@@ -340,7 +342,9 @@ def run_e2e_case(case):
                     await c.login(rl["user"], "x")
                     info.setdefault("relogin", {})[f"s{i}"] = (t1, world.loop.time())
                 for (kind, n) in s["ops"]:
-                    if kind == "up":
+                    if kind == "list":
+                        await c.list("/many")
+                    elif kind == "up":
                         async with c.upload_stream(f"up_{i}.bin") as st:
                             data = b"u" * n
                             for pos in range(0, n, B):
